@@ -1,7 +1,8 @@
 //! C14 / C15 harness for the TRANSFAC reader (`lightmotif_io::transfac`).
 //!
 //! `transfac c14 gen --seed S --n N [--tier t]` prints input lines
-//!     <id> alpha=dna|protein le=lf|crlf fnl=0|1 vv=-|h<hex> lay=canon|<seed> caps=<c,c,..> pat=<n.n.n> recs=<records>
+//!     <id> fmt=transfac alpha=dna|protein le=lf|crlf fnl=0|1 vv=-|h<hex> lay=canon|<seed> [wf=1] caps=<c,c,..> pat=<n.n.n> recs=<records>
+//!     (wf=1: the generator claims the case meets TransfacPrint.wf_file, the hypothesis of C14.reader_roundtrip)
 //!     <id> alpha=dna caps=.. pat=.. file=<path>                      (bundled data, corpus only)
 //! `transfac c15 gen ...` prints
 //!     <id> alpha=dna|protein caps=<c,c,..> pat=<n.n.n> data=<hex>
@@ -20,9 +21,11 @@
 //! `c` + rows of u32.  Every call into the library runs under `catch_unwind` on a watched thread.
 //!
 //! Record encoding in `recs=` (records joined by `;`):
-//!     <id>:<ac>:<na>:<de>:<syms>:<rows>:<refs>
+//!     <id>:<ac>:<na>:<de>:<syms>:<rows>:<refs>:<po>:<sep>
 //! with syms = symbol letters of the P0 line in file order (`-` = no matrix), rows = `/`-joined
-//! `label,token,token,...`, refs as above.
+//! `label,token,token,...,~<hex of the text after the last count>`, refs as above, po = 0|1 (header
+//! spelled PO), sep = h<hex> of the blanks/tabs written before every symbol and count (the last two
+//! and the row tails are used by the canonical printer only).
 
 use lightmotif::abc::{Alphabet, Dna, Protein, Symbol};
 use lmh::*;
@@ -280,8 +283,10 @@ struct Rec {
     ac: Option<String>,
     na: Option<String>,
     de: Option<String>,
+    po: bool,      // matrix header spelled "PO" (canonical printer)
+    sep: String,   // blanks/tabs before every symbol and count (canonical printer)
     syms: Vec<char>,
-    rows: Vec<(String, Vec<String>)>,
+    rows: Vec<(String, Vec<String>, String)>, // label, tokens, text after the last count
     refs: Vec<RefRec>,
 }
 
@@ -290,9 +295,10 @@ fn enc_rec(r: &Rec) -> String {
     let rows = r
         .rows
         .iter()
-        .map(|(l, t)| {
+        .map(|(l, t, tail)| {
             let mut v = vec![l.clone()];
             v.extend(t.iter().cloned());
+            v.push(format!("~{}", hex(tail.as_bytes())));
             v.join(",")
         })
         .collect::<Vec<_>>()
@@ -316,14 +322,16 @@ fn enc_rec(r: &Rec) -> String {
             .join("/")
     };
     format!(
-        "{}:{}:{}:{}:{}:{}:{}",
+        "{}:{}:{}:{}:{}:{}:{}:{}:h{}",
         opt_hex(r.id.as_deref()),
         opt_hex(r.ac.as_deref()),
         opt_hex(r.na.as_deref()),
         opt_hex(r.de.as_deref()),
         syms,
         rows,
-        refs
+        refs,
+        r.po as u8,
+        hex(r.sep.as_bytes())
     )
 }
 
@@ -337,7 +345,16 @@ fn dec_rec(s: &str) -> Rec {
             .map(|r| {
                 let mut it = r.split(',');
                 let l = it.next().unwrap().to_string();
-                (l, it.map(|x| x.to_string()).collect())
+                let mut toks: Vec<String> = it.map(|x| x.to_string()).collect();
+                let tail = match toks.last() {
+                    Some(t) if t.starts_with('~') => {
+                        let t = String::from_utf8(unhex(&t[1..])).unwrap();
+                        toks.pop();
+                        t
+                    }
+                    _ => String::new(),
+                };
+                (l, toks, tail)
             })
             .collect()
     };
@@ -357,7 +374,9 @@ fn dec_rec(s: &str) -> Rec {
             })
             .collect()
     };
-    Rec { id: opt_unhex(p[0]), ac: opt_unhex(p[1]), na: opt_unhex(p[2]), de: opt_unhex(p[3]), syms, rows, refs }
+    let po = p.get(7).map(|x| *x == "1").unwrap_or(false);
+    let sep = p.get(8).and_then(|x| opt_unhex(x)).unwrap_or_else(|| "  ".to_string());
+    Rec { id: opt_unhex(p[0]), ac: opt_unhex(p[1]), na: opt_unhex(p[2]), de: opt_unhex(p[3]), po, sep, syms, rows, refs }
 }
 
 /// Canonical printer (mirrored by `print_file` of coq/transfac/TransfacPrint.v).
@@ -380,18 +399,19 @@ fn print_canon(vv: &Option<String>, recs: &[Rec], eol: &str, fnl: bool) -> Vec<u
             s += &format!("DE  {}{}XX{}", x, eol, eol);
         }
         if !r.syms.is_empty() {
-            s += "P0";
+            s += if r.po { "PO" } else { "P0" };
             for c in &r.syms {
-                s += "      ";
+                s += &r.sep;
                 s.push(*c);
             }
             s += eol;
-            for (l, toks) in &r.rows {
+            for (l, toks, tail) in &r.rows {
                 s += l;
                 for t in toks {
-                    s += "  ";
+                    s += &r.sep;
                     s += t;
                 }
+                s += tail;
                 s += eol;
             }
             s += "XX";
@@ -446,7 +466,7 @@ fn print_varied(vv: &Option<String>, recs: &[Rec], eol: &str, fnl: bool, seed: u
             }
             b += eol;
             let cons = rng.chance(1, 2);
-            for (l, toks) in &r.rows {
+            for (l, toks, _tail) in &r.rows {
                 b += l;
                 for t in toks {
                     b += &if rng.chance(1, 4) { blanks(&mut rng, 1, 6) } else { " ".repeat(w as usize) };
@@ -637,6 +657,10 @@ fn gen_rec(rng: &mut Rng, alpha: &str, maxw: u64, canon: bool) -> Rec {
         let start = rng.below(2);
         let style = rng.below(4);
         let intonly = rng.chance(1, 2);
+        // canonical layout parameters: column separator, PO/P0, text after the counts
+        r.sep = if canon { let b = blanks(rng, 1, 7); b } else { "  ".to_string() };
+        r.po = canon && rng.chance(1, 3);
+        let cons = canon && rng.chance(1, 2);
         for i in 0..w {
             let n = i + start;
             let label = if canon || style < 2 {
@@ -647,7 +671,19 @@ fn gen_rec(rng: &mut Rng, alpha: &str, maxw: u64, canon: bool) -> Rec {
                 format!("{:03}", n)
             };
             let toks = syms.iter().map(|_| if intonly { rng.below(200).to_string() } else { gen_token(rng) }).collect();
-            r.rows.push((label, toks));
+            let tail = if cons {
+                let mut t = blanks(rng, 1, 6);
+                t.push(*rng.pick(&['A', 'C', 'G', 'T', 'N', 'W', 'y', 'r', 'k', 'é']));
+                if rng.chance(1, 10) {
+                    t += " x";
+                }
+                t
+            } else if canon && rng.chance(1, 8) {
+                blanks(rng, 1, 3)
+            } else {
+                String::new()
+            };
+            r.rows.push((label, toks, tail));
         }
         r.syms = syms;
     }
@@ -685,7 +721,7 @@ impl FileSpec {
     }
     fn tokens(&self) -> String {
         format!(
-            "alpha={} le={} fnl={} vv={} lay={}",
+            "alpha={} le={} fnl={} vv={} lay={}{}",
             self.alpha,
             if self.crlf { "crlf" } else { "lf" },
             self.fnl as u8,
@@ -693,7 +729,10 @@ impl FileSpec {
             match self.lay {
                 None => "canon".to_string(),
                 Some(s) => s.to_string(),
-            }
+            },
+            // canonical files are generated inside the hypothesis of the round-trip theorem
+            // (TransfacPrint.wf_file); the driver evaluates the extracted wf_file to confirm it
+            if self.lay.is_none() { " wf=1" } else { "" }
         )
     }
 }
@@ -931,7 +970,12 @@ fn main() {
                     let data = unhex(d);
                     println!("{} => obs={}", line, observe(&alpha, &data, &chs));
                 } else if let Some(p) = f.get("file") {
-                    let data = std::fs::read(p).unwrap_or_default();
+                    // bundled files are read from the tree under test (VERIF_REPO=<scratch worktree>)
+                    let path = match (std::env::var("VERIF_REPO"), p.strip_prefix("/repo/")) {
+                        (Ok(root), Some(rel)) if !root.is_empty() => format!("{}/{}", root.trim_end_matches('/'), rel),
+                        _ => p.clone(),
+                    };
+                    let data = std::fs::read(&path).unwrap_or_default();
                     println!("{} => data={} obs={}", line, hex(&data), observe(&alpha, &data, &chs));
                 } else {
                     let recs: Vec<Rec> = f.get("recs").map(|s| s.split(';').map(dec_rec).collect()).unwrap_or_default();
